@@ -171,12 +171,24 @@ def mont_ladder(k, x1):
 L_TWIST = (1 << 253) - 55484635554744707071703875581767296995      # prime order of the quadratic twist's large subgroup
 
 
-def preimage_for_output(n_bytes, u):
-    """a point P (32 bytes) with X25519(n, P) = u, for u of prime order on the curve or on its twist; None if u has a torsion component"""
+def prime_subgroup_order(u):
+    """the prime order (L on the curve, L_TWIST on the twist) if the point(s) with x-coordinate u lie in the prime-order subgroup, else None.
+    Only such u can be the result of X25519 with a clamped scalar (the clamped scalar is a multiple of 8, the cofactors are 8 and 4)."""
+    u %= p
+    if u == 0:
+        return None
+    rhs = (u * u * u + 486662 * u * u + u) % p
+    order = L if pow(rhs, (p - 1) // 2, p) == 1 else L_TWIST          # u^3 + A u^2 + u a square: on the curve, otherwise on the twist
+    return order if mont_ladder(order, u)[1] == 0 else None
+
+
+def preimage_for_output(n_bytes, u, order=None):
+    """a point P (32 bytes) with X25519(n, P) = u, for u of prime order on the curve or on its twist; None if u has a torsion component
+    (order: the result of prime_subgroup_order(u) if the caller already has it)"""
     k = int.from_bytes(n_bytes, "little"); k &= (1 << 254) - 8; k |= 1 << 254
-    for order in (L, L_TWIST):
-        if mont_ladder(order, u)[1] == 0:                 # [order]u = infinity: u lies in that prime-order subgroup
-            m = pow(k, -1, order)
+    for o in ((L, L_TWIST) if order is None else (order,)):
+        if order is not None or mont_ladder(o, u)[1] == 0:    # [order]u = infinity: u lies in that prime-order subgroup
+            m = pow(k, -1, o)
             x2, z2 = mont_ladder(m, u)
             if z2 == 0:
                 return None
